@@ -56,13 +56,15 @@ Section Riemann.
   Variable d1_pinned : bool.
   Definition fan_coeff : F := if d1_pinned then tdgm1 c else gm1d2 c.
 
-  (* ---- vacuum samplers; dxdt = 0 for HLLC, general for the exact solver ---- *)
+  (* ---- vacuum samplers; dxdt = 0 for HLLC, general for the exact solver ----
+     the fan base is guarded by std::max(0., .) (repair of the vacuum-front NaN: one rounding error beyond
+     the front the unguarded base is negative and std::pow returns NaN) *)
   (* returns (flag, rho, u, P); flag: -1 left state / 1 right state / 0 vacuum, as Z *)
   Definition sample_right_vacuum (rhoL uL PL aL dxdt : F) : Z * F * F * F :=
     if (uL - aL) <? dxdt then
       let SL := uL + tdgm1 c * aL in
       if dxdt <? SL then
-        let base := tdgp1 c + gm1dgp1 c * (uL - dxdt) / aL in
+        let base := smax S 0 (tdgp1 c + gm1dgp1 c * (uL - dxdt) / aL) in
         ((-1)%Z, rhoL * spow S base (tdgm1 c), tdgp1 c * (aL + gm1d2 c * uL + dxdt), PL * spow S base (tgdgm1 c))
       else (0%Z, 0, 0, 0)
     else ((-1)%Z, rhoL, uL, PL).
@@ -71,7 +73,7 @@ Section Riemann.
     if dxdt <? (uR + aR) then
       let SR := uR - tdgm1 c * aR in
       if SR <? dxdt then
-        let base := tdgp1 c - gm1dgp1 c * (uR - dxdt) / aR in
+        let base := smax S 0 (tdgp1 c - gm1dgp1 c * (uR - dxdt) / aR) in
         (1%Z, rhoR * spow S base (tdgm1 c), tdgp1 c * (- aR + fan_coeff * uR + dxdt), PR * spow S base (tgdgm1 c))
       else (0%Z, 0, 0, 0)
     else (1%Z, rhoR, uR, PR).
@@ -82,12 +84,12 @@ Section Riemann.
     if (dxdt <? SR) && (SL <? dxdt) then (0%Z, 0, 0, 0)
     else if SL <? dxdt then
       if dxdt <? (uR + aR) then
-        let base := tdgp1 c - gm1dgp1 c * (uR - dxdt) / aR in
+        let base := smax S 0 (tdgp1 c - gm1dgp1 c * (uR - dxdt) / aR) in
         (1%Z, rhoR * spow S base (tdgm1 c), tdgp1 c * (- aR + fan_coeff * uR + dxdt), PR * spow S base (tgdgm1 c))
       else (1%Z, rhoR, uR, PR)
     else
       if (uL - aL) <? dxdt then
-        let base := tdgp1 c + gm1dgp1 c * (uL - dxdt) / aL in
+        let base := smax S 0 (tdgp1 c + gm1dgp1 c * (uL - dxdt) / aL) in
         ((-1)%Z, rhoL * spow S base (tdgm1 c), tdgp1 c * (aL + fan_coeff * uL + dxdt), PL * spow S base (tgdgm1 c))
       else ((-1)%Z, rhoL, uL, PL).
 
@@ -97,7 +99,7 @@ Section Riemann.
     if uL <? aL then
       let SL := uL + tdgm1 c * aL in
       if 0 <? SL then
-        let base := tdgp1 c + gm1dgp1 c * uL / aL in
+        let base := smax S 0 (tdgp1 c + gm1dgp1 c * uL / aL) in
         ((-1)%Z, rhoL * spow S base (tdgm1 c), tdgp1 c * (aL + gm1d2 c * uL), PL * spow S base (tgdgm1 c))
       else (0%Z, 0, 0, 0)
     else ((-1)%Z, rhoL, uL, PL).
@@ -106,7 +108,7 @@ Section Riemann.
     if (- aR) <? uR then
       let SR := uR - tdgm1 c * aR in
       if SR <? 0 then
-        let base := tdgp1 c - gm1dgp1 c * uR / aR in
+        let base := smax S 0 (tdgp1 c - gm1dgp1 c * uR / aR) in
         (1%Z, rhoR * spow S base (tdgm1 c), tdgp1 c * (- aR + fan_coeff * uR), PR * spow S base (tgdgm1 c))
       else (0%Z, 0, 0, 0)
     else (1%Z, rhoR, uR, PR).
@@ -117,12 +119,12 @@ Section Riemann.
     if (0 <? SR) && (SL <? 0) then (0%Z, 0, 0, 0)
     else if SL <? 0 then
       if (- aR) <? uR then
-        let base := tdgp1 c - gm1dgp1 c * uR / aR in
+        let base := smax S 0 (tdgp1 c - gm1dgp1 c * uR / aR) in
         (1%Z, rhoR * spow S base (tdgm1 c), tdgp1 c * (- aR + fan_coeff * uR), PR * spow S base (tgdgm1 c))
       else (1%Z, rhoR, uR, PR)
     else
       if uL <? aL then
-        let base := tdgp1 c + gm1dgp1 c * uL / aL in
+        let base := smax S 0 (tdgp1 c + gm1dgp1 c * uL / aL) in
         ((-1)%Z, rhoL * spow S base (tdgm1 c), tdgp1 c * (aL + fan_coeff * uL), PL * spow S base (tgdgm1 c))
       else ((-1)%Z, rhoL, uL, PL).
 
